@@ -43,9 +43,15 @@ func (its *DatatypeManager) DeliverTransaction(wired iface.WiredDatatype) {
 			}
 			defer func() {
 				its.sema.Release(1)
-				if wired.NeedPush() {
-					its.ctx.L().Infof("deliver transaction after delivering")
-					its.DeliverTransaction(wired)
+				// the semaphore is shared by all the datatypes of the client: while this push-pull was in flight,
+				// the delivery of any of them (not only of 'wired') may have been dropped by TryAcquire.
+				// One successor is enough: it looks for the next one when it ends.
+				for _, data := range its.dataMap {
+					if data.NeedPush() {
+						its.ctx.L().Infof("deliver transaction after delivering")
+						its.DeliverTransaction(data)
+						break
+					}
 				}
 			}()
 			if err := its.sync(wired); err != nil {
